@@ -21,7 +21,7 @@ RULE = ('cases are 4-10 steps: emit (a PGPy-made artifact whose packets are re-p
         '(old format, 5-octet, partial) was accepted and relayed and one own artifact was re-parsed; distinct = distinct (tag, '
         'framing, content class) multisets')
 TIERS = {'quick': {'runs': 3000, 'budget_s': 80}, 'thorough': {'runs': 150000, 'budget_s': 1500}}
-PROBES = ('own_key_private', 'own_key_protected', 'own_signature', 'own_message', 'own_encrypted', 'relay_accepted', 'relay_rejected',
+PROBES = ('own_signature_long_subpacket', 'own_key_private', 'own_key_protected', 'own_signature', 'own_message', 'own_encrypted', 'relay_accepted', 'relay_rejected',
           'framing_old', 'framing_5octet', 'framing_partial', 'framing_partial_final5', 'framing_indeterminate', 'unknown_tag', 'unknown_version',
           'uid_invalid_utf8', 'uid_not_nfc', 'filename_non_ascii', 'secret_usage255', 'secret_gnu_dummy', 'secret_gnu_card_stub', 'nested_compressed', 'edit_protect_old_format',
           'edit_add_uid', 'edit_reprotect_other_cipher', 'trust_odd_length', 'uattr_two_subpackets', 'uattr_image_header_other_version', 'uattr_image_header_other_length', 'uattr_three_images')
@@ -330,7 +330,10 @@ def execute(case, ctx):
                 obj, label = key, 'protected-key'
                 ctx.probe('own_key_protected')
             elif what == 'signature':
-                obj, label = key.sign('c08', notation={'n@example.org': 'v'}, policy_uri='http://x/'), 'signature'
+                long_ = int(st.get('trailing', '') != '') * (9000 if len(st.get('trailing', '')) > 4 else 200)
+                obj, label = key.sign('c08', notation={'n@example.org': 'v' + 'w' * long_}, policy_uri='http://x/' + 'p' * (long_ // 40)), 'signature'
+                if long_ >= 8384:
+                    ctx.probe('own_signature_long_subpacket')
                 ctx.probe('own_signature')
             else:
                 msg, _ = encworld.make_message(pgpy, st['msg'])
